@@ -551,9 +551,9 @@ class Gen:
         r = self.r
         c = self.vals[cur]
         w = c.w
-        cats = {"U": ["arith", "arith", "logic", "cmp", "cmp", "sshift", "sshift", "dshift", "ext", "slice", "cat", "mux", "cast", "not", "bitarith", "addc", "shra", "dyn", "veclogicbit", "eqv"],
-                "S": ["arith", "arith", "arith", "logic", "cmp", "cmp", "cmp", "sshift", "sshift", "dshift", "ext", "slice", "cat", "mux", "cast", "not", "abs", "abs", "bitarith", "veclogicbit", "eqv"],
-                "V": ["logic", "cmp", "sshift", "dshift", "ext", "slice", "cat", "mux", "cast", "not", "veclogicbit", "eqv"],
+        cats = {"U": ["arith", "arith", "logic", "cmp", "cmp", "sshift", "sshift", "dshift", "ext", "slice", "slice", "cat", "mux", "cast", "not", "bitarith", "addc", "shra", "dyn", "dyn", "veclogicbit", "eqv"],
+                "S": ["arith", "arith", "arith", "logic", "cmp", "cmp", "cmp", "sshift", "sshift", "dshift", "ext", "slice", "slice", "cat", "mux", "cast", "not", "abs", "abs", "bitarith", "veclogicbit", "eqv"],
+                "V": ["logic", "cmp", "sshift", "dshift", "ext", "slice", "slice", "cat", "mux", "cast", "not", "veclogicbit", "eqv"],
                 "B": ["logic", "cmp", "not", "bitext", "cat", "muxsel", "bitarith_b", "veclogicbit_b", "mux"]}[c.ty]
         cat = r.choice(cats)
         if cat == "arith":
@@ -796,12 +796,25 @@ def compare_case(case, impl, model, use_model=True):
             if use_model:
                 if mv is None or j >= len(mv): dis.append(("model-missing", j, v, "", ot)); break
                 if mv[j] != ot: dis.append(("model-vs-impl", j, v, mv[j], ot)); break
-    # ---- construction time
+    # ---- construction time: equal to the run-time value; a DAG with a partial mux (selector can be out of range)
+    # may be MORE defined at construction time (constant propagation relies on monotonicity, which exactly this
+    # node lacks - the refinement C01 allows after post-processing), never contradicting
     if "C" in impl and 0 in iv:
+        partial = has_partial_mux(case, orc[0])
         for j, (c, s) in enumerate(zip(impl["C"], iv[0])):
-            if c != s:
-                dis.append(("construction-time-vs-simulation", j, 0, s, c)); break
+            if c == s: continue
+            if partial and c.partition(":")[0] == s.partition(":")[0] and len(c) == len(s) and \
+               all(y == "X" or x == y for x, y in zip(c.partition(":")[2], s.partition(":")[2])):
+                continue
+            dis.append(("construction-time-vs-simulation", j, 0, s, c)); break
     return dis
+
+def has_partial_mux(case, vals):
+    nodes, _ = parse_case(case)
+    for (op, par, refs) in nodes:
+        if op == "mux" and (len(refs) - 1) < (1 << vals[refs[0]].w): return True
+        if op == "dynbit" and vals[refs[0]].w < (1 << vals[refs[1]].w): return True
+    return False
 
 def cone(case, j):
     """the sub-DAG feeding node j, renumbered (shrinks a failing case)"""
@@ -950,6 +963,7 @@ def main():
     kp = known_probe(harness, rep)
 
     # ---- evidence --------------------------------------------------------------
+    ct_more_defined = 0
     hist = collections.Counter(); distinct = set(); evals = 0; ct = 0; rejected = 0; abstained = 0; xvec = 0; nodes_cmp = 0
     opwidth = collections.Counter()
     for i, c in enumerate(cases):
@@ -958,7 +972,9 @@ def main():
         orc = py_case(c)
         if isinstance(orc, tuple): rejected += 1; evals += 1; distinct.add(c.split("|")[0]); continue
         nv = len(orc); evals += nv
-        if "C" in impl[i]: ct += 1
+        if "C" in impl[i]:
+            ct += 1
+            if impl[i]["C"] != impl[i].get("V", {}).get(0): ct_more_defined += 1
         for v, vals in enumerate(orc):
             nodes_cmp += len(vals)
             if any("?" in x.bits for x in vals): abstained += 1
@@ -978,6 +994,7 @@ def main():
     rep.cov["traces_validated_against_impl"] = evals
     rep.cov["nodes_compared"] = nodes_cmp
     rep.cov["construction_time_dags"] = ct
+    rep.cov["construction_time_more_defined_than_simulation(partial mux)"] = ct_more_defined
     rep.cov["rejection_tests"] = rejected
     rep.cov["vectors_with_undefined_operand_bits"] = xvec
     rep.cov["vectors_with_oracle_abstention"] = abstained
@@ -993,6 +1010,7 @@ def main():
         "ConnectionType BOOL/BITVEC and Node_Signal forwarding nodes are not modelled (value-neutral)",
         "the python oracle abstains ('?') on undefined operands of composite operators (mixed-width signed multiply); those bits are compared model-vs-implementation only",
         "dynamic shift amounts wider than 64 bit, dynamic slices with more than 2^16 options, x[int] with index < -width, upper/lower(BitReduce) beyond the width and ext(x, BitReduce) are outside the generated language (the last one is a recorded known finding)",
+        "construction-time evaluation must equal run-time simulation; only for DAGs containing a mux whose selector can be out of range (table shorter than 2^selwidth) it may be more defined (X -> value, e.g. `b = x[6]; mux(b, {x})`: propagateConstants folds the mux while its selector is still unknown) - counted above",
         "construction-time evaluation of zero-width expressions is skipped by the harness (ConstructionTimeSimulationContext::getSignal crashes on them); every case contains one extra 1-bit pin because a design of zero-width signals only gives the simulator an empty state vector",
         "layer (a) of C03 (hlim node semantics, NodeSemDefs.v) is checks/C03.py",
     ]
